@@ -18,7 +18,7 @@ func H_C17_ErrNotLost() {
 }
 
 // ccallOutcome: 0 nil entry, 1 returns nil, 2 returns its own error, 3 waits for its context
-// and returns context.Canceled.
+// and returns context.Canceled, 4 returns context.Canceled at once of its own accord.
 func ccallEntry(kind int, e error, calls, done *int) ccall.CallConcurrentlyFunc {
 	if kind == 0 {
 		return nil
@@ -30,6 +30,8 @@ func ccallEntry(kind int, e error, calls, done *int) ccall.CallConcurrentlyFunc 
 		case 1:
 		case 2:
 			err = e
+		case 4:
+			err = context.Canceled
 		default:
 			<-ctx.Done()
 			err = context.Canceled
@@ -82,7 +84,13 @@ func ccallCheck(n int, kinds [3]int, es [3]error, calls, done [3]*int, cancelled
 	if anyErr && !cancelled {
 		vrt.Assert(err != nil && err != context.Canceled, "ccall-error-not-lost")
 	}
-	if err == context.Canceled && !anyWait {
+	anyOwnCancel := false
+	for i := 0; i < n; i++ {
+		if kinds[i] == 4 {
+			anyOwnCancel = true
+		}
+	}
+	if err == context.Canceled && !anyWait && !anyOwnCancel {
 		vrt.Assert(cancelled, "ccall-canceled-only-if-cancelled")
 	}
 }
@@ -94,9 +102,9 @@ func ccallCheck(n int, kinds [3]int, es [3]error, calls, done [3]*int, cancelled
 // quiescence nobody is still blocked (the functions' context is cancelled after the return).
 func H_C17_Three() {
 	var kinds [3]int
-	kinds[0] = vrt.Int("k0", 0, 3)
-	kinds[1] = vrt.Int("k1", 0, 3)
-	kinds[2] = vrt.Int("k2", 0, 3)
+	kinds[0] = vrt.Int("k0", 0, 4)
+	kinds[1] = vrt.Int("k1", 0, 4)
+	kinds[2] = vrt.Int("k2", 0, 4)
 	es := [3]error{errors.New("e0"), errors.New("e1"), errors.New("e2")}
 	var c0, c1, c2, d0, d1, d2 int
 	calls := [3]*int{&c0, &c1, &c2}
@@ -128,8 +136,8 @@ func H_C17_Three() {
 // H_C17_Two: as H_C17_Three with two entries (cheaper; used by the quick tier).
 func H_C17_Two() {
 	var kinds [3]int
-	kinds[0] = vrt.Int("k0", 0, 3)
-	kinds[1] = vrt.Int("k1", 0, 3)
+	kinds[0] = vrt.Int("k0", 0, 4)
+	kinds[1] = vrt.Int("k1", 0, 4)
 	es := [3]error{errors.New("e0"), errors.New("e1"), nil}
 	var c0, c1, d0, d1 int
 	calls := [3]*int{&c0, &c1, nil}
@@ -159,7 +167,7 @@ func H_C17_Two() {
 func H_C17_Small() {
 	err := ccall.CallConcurrently(context.Background())
 	vrt.Assert(err == nil, "ccall-empty")
-	kind := vrt.Int("k", 0, 3)
+	kind := vrt.Int("k", 0, 4)
 	e := errors.New("e")
 	var c, d int
 	ctx, cancel := context.WithCancel(context.Background())
